@@ -65,8 +65,27 @@ func runKaitai(args []string) error {
 		}
 		return fmt.Sprintf("UNKNOWN(len=%d)", len(b))
 	}
-	// the compression codes the writer can emit, by name
-	tr.emit(M{"t": "codes", "writer": M{"none": recordio.CompressionTypeNone, "gzip": recordio.CompressionTypeGZIP, "snappy": recordio.CompressionTypeSnappy,
+	// the compression codes the writer can emit: by name, and by probing which numeric codes the writer accepts at all
+	accepted := []int{}
+	for code := 0; code < 64; code++ {
+		func() {
+			defer func() { recover() }()
+			p := filepath.Join(in.Dir, fmt.Sprintf("probe%d.rio", code))
+			defer os.Remove(p)
+			w, err := recordio.NewFileWriter(recordio.Path(p), recordio.CompressionType(code))
+			if err != nil {
+				return
+			}
+			if err := w.Open(); err != nil {
+				return
+			}
+			_, werr := w.Write([]byte("probe-probe-probe-probe"))
+			if cerr := w.Close(); werr == nil && cerr == nil {
+				accepted = append(accepted, code)
+			}
+		}()
+	}
+	tr.emit(M{"t": "codes", "accepted": accepted, "writer": M{"none": recordio.CompressionTypeNone, "gzip": recordio.CompressionTypeGZIP, "snappy": recordio.CompressionTypeSnappy,
 		"lzw": recordio.CompressionTypeLzw}, "generated": M{"none": int(gokaitai.RecordioV4_Compression__None), "gzip": int(gokaitai.RecordioV4_Compression__Gzip),
 		"snappy": int(gokaitai.RecordioV4_Compression__Snappy)}})
 	for ci, c := range in.Cases {
